@@ -1,7 +1,7 @@
 #!/bin/bash
 # lead tool: run the quick tier of the given checks (default: all), one line per check
 cd "$(dirname "$0")/.."
-props=${@:-$(ls checks | sed 's/.py//' | sort)}
+props=${@:-$(ls checks/C*.py | xargs -n1 basename | sed "s/.py//" | sort)}
 for p in $props; do
   s=$(date +%s)
   out=$(./check $p --tier quick 2>&1); rc=$?
